@@ -203,13 +203,13 @@ def _riff_chunks(data):
 
 def h_image(dirk: int, vtype: int, free: int, rev: int, sizek: int, mark: int, rate_i: int, parts: int, pair: int) -> int:
     """
-    pre: 0 <= dirk <= 2 and 0 <= vtype <= 1 and 0 <= free <= 1 and 0 <= rev <= 1 and 0 <= sizek <= 2 and 0 <= mark <= 2
+    pre: 0 <= dirk <= 2 and 0 <= vtype <= 1 and 0 <= free <= 1 and 0 <= rev <= 5 and 0 <= sizek <= 2 and 0 <= mark <= 2
     pre: 0 <= rate_i <= 2 and 1 <= parts <= 2 and 0 <= pair <= 2
     post: _ == 1
     """
     CNT[0] += 1
     from vf.util import conc, untraced
-    dirk, vtype, free, rev, sizek, mark = conc(dirk, 0, 2), conc(vtype, 0, 1), conc(free, 0, 1), conc(rev, 0, 1), conc(sizek, 0, 2), conc(mark, 0, 2)
+    dirk, vtype, free, rev, sizek, mark = conc(dirk, 0, 2), conc(vtype, 0, 1), conc(free, 0, 1), conc(rev, 0, 5), conc(sizek, 0, 2), conc(mark, 0, 2)
     rate_i, parts, pair = conc(rate_i, 0, 2), conc(parts, 1, 2), conc(pair, 0, 2)
     with untraced():
         import io
@@ -220,10 +220,11 @@ def h_image(dirk: int, vtype: int, free: int, rev: int, sizek: int, mark: int, r
         sf = akaiw.sample_file
         rate = (0, 22050, 44100)[rate_i]
         nb = (10, 4026, 8122)[sizek]                   # small / fills its sector exactly / fills two sectors exactly
-        wa, wb = _words(6000, 1), _words(nb, 2)
+        wa, wb = _words(10000, 1), _words(nb, 2)        # AAA: 3 sectors, stored in every one of the 6 link orders
+        order3 = ([0, 1, 2], [1, 0, 2], [0, 2, 1], [2, 0, 1], [1, 2, 0], [2, 1, 0])[rev]
         st, en = ((0, None), (7, nb - 3), (5, 5))[mark] if nb > 10 or mark != 1 else (2, 9)
-        files = [("AAA", 0x73, sf("AAA", wa, rate=rate), [1, 0] if rev else None),
-                 ("BBB", 0xf3, sf("BBB", wb, rate=rate, start=st, end=en), ([1, 0] if rev else None) if sizek == 2 else None)]
+        files = [("AAA", 0x73, sf("AAA", wa, rate=rate), order3 if rev else None),
+                 ("BBB", 0xf3, sf("BBB", wb, rate=rate, start=st, end=en), ([1, 0] if rev % 2 else None) if sizek == 2 else None)]
         exp = {"A/VOL ONE/AAA.wav": (1, 44100 if rate == 0 else rate, wa),
                "A/VOL ONE/BBB.wav": (1, 44100 if rate == 0 else rate, wb[2 * st:2 * (len(wb) // 2 if en is None else en)])}
         if pair:
